@@ -199,11 +199,25 @@ def run_history(ops, le):
                     r = L.parse(e)
                     if r is not e and not err:
                         err = 'parse of an expression object did not return that object'
+                    # whatever the options: an expression object is not text to be read again
+                    for kw in ({'strict': True}, {'validate': True, 'strict': True}, {'simple': True, 'strict': True}, {'simple': True}):
+                        try:
+                            r2 = L.parse(e, **kw)
+                        except le.ExpressionError as ex:
+                            # validate=True may report unknown keys of the object: that is an answer, not a re-reading
+                            r2 = e if ('validate' in kw and str(ex).startswith('Unknown license key')) else ex
+                        if r2 is not e and not err:
+                            err = 'parse(<expression object>, %r) did not return that object: %r' % (kw, r2)
                     obs.append([1, [0, [h]]])
                 elif kind == 'keys':
                     r = L.license_keys(e)
                     if r != F.license_keys(e) and not err:
                         err = 'license_keys differs from a fresh Licensing'
+                    # the listings of an object do not depend on the options meant for reading a text
+                    for kw in ({'strict': True}, {'simple': True}, {'strict': True, 'simple': True}):
+                        r2 = outcome_of(lambda: L.license_keys(e, **kw), lambda x: x)
+                        if r2 != [0, r] and not err:
+                            err = 'license_keys(<expression object>, %r) = %r, without options %r' % (kw, r2, r)
                     obs.append([2, [enc_str(k) for k in r]])
                 elif kind == 'unknown':
                     r = L.unknown_license_keys(e)
